@@ -64,7 +64,11 @@ def _ab(tier):
 
 
 def _frames(tier):
-    return range(2, 11) if tier == "quick" else range(2, 17)
+    # every small frame count, plus counts with a large prime factor (13, 17, 19, 23, 26 = 2*13, ...): FFT
+    # implementations treat those differently from 2/3/5/7/11-smooth lengths
+    if tier == "quick":
+        return list(range(2, 17)) + [17, 19, 23, 26, 29, 34, 37, 46]
+    return list(range(2, 41)) + [46, 58, 62, 74, 97, 101, 127, 202]
 
 
 def _ladder(tier):
